@@ -44,13 +44,16 @@ def rand_val(rng, nonzero=True):
 
 def gen_pattern(rng, n, style=None):
     """square pattern with sorted rows, every row stores its diagonal"""
-    style = style or rng.choice(["tri", "sparse", "sparse", "dense", "lower", "upper", "arrow", "diag", "band2",
+    style = style or rng.choice(["tri", "sparse", "sparse", "dense", "lower", "upper", "arrow", "diag", "diagrows", "band2",
                                  "revarrow"])
     rows = []
     for i in range(n):
         s = {i}
         if style == "tri":
             s |= {j for j in (i - 1, i + 1) if 0 <= j < n}
+        elif style == "diagrows":   # about half of the rows store ONLY their diagonal entry
+            if rng.random() < 0.5:
+                s |= {j for j in range(n) if rng.random() < 0.4}
         elif style == "sparse":
             s |= {j for j in range(n) if rng.random() < 0.3}
         elif style == "dense":
@@ -255,7 +258,7 @@ def level_pattern_variant(n, rows, p, mode):
     """the level-p pattern under a WRONG level bookkeeping (used only to SELECT inputs that are sensitive to it):
     mode 'first' = an existing entry keeps its first level, 'last' = the newest level always overwrites,
     'max' = the larger level wins.  mode 'min' is the textbook rule."""
-    INF = 10 ** 9
+    INF = 10 ** 30
     lev = [[INF] * n for _ in range(n)]
     for i, r in enumerate(rows):
         for j in r:
@@ -407,6 +410,107 @@ def gen_sessions(rng, reps):
         n = 3
         style, rows = gen_pattern(rng, n, "tri")
         cases.append("hist mat 0 1/1 %s none 3 S N I %s" % (fmt_csr(rows, gen_values(rng, rows)), fmt_q(rand_vec(rng, n))))
+    return cases
+
+
+BOUNDARY_SIZES_QUICK = [127, 128, 129, 255, 256, 257, 1000, 1001]
+BOUNDARY_SIZES_THOROUGH = [32767, 32768, 65535, 65536, 65537]
+INT_MAX = 2147483647
+
+
+def boundary_matrix(rng, n, tail=6):
+    """n x n sparse matrix: the first rows store ONLY their diagonal (a_ii * omega != 1), the last `tail` rows are coupled
+    (tridiagonal among themselves plus an entry in column 0 and one in the last column); the interesting content sits at
+    the highest indices"""
+    rows = []
+    for i in range(n):
+        if i < n - tail:
+            rows.append([i] if i > 0 or n <= tail else sorted({0, n - 1}))
+        else:
+            rows.append(sorted({0, i, n - 1} | {j for j in (i - 1, i + 1) if n - tail <= j < n}))
+    vals = []
+    for i, r in enumerate(rows):
+        for j in r:
+            vals.append(Fr(rng.choice([3, 5, 7, -6, 9])) if j == i else Fr(rng.choice([1, -1, 2, -2]), rng.choice([1, 2])))
+    return rows, vals
+
+
+def boundary_vec(rng, n, tail=8):
+    return [Fr(0) if i < n - tail and i % 97 else Fr(rng.randint(-3, 3), rng.choice([1, 2])) for i in range(n)]
+
+
+def fill_row_matrix(rng, m):
+    """n = m + 2: row 0 has U entries in the columns 1..m, the LAST row has an entry in column 0, all other rows are
+    diagonal: ILU(p >= 1) puts exactly m fill-ins (level 1) into the last row"""
+    n = m + 2
+    rows = [[0] + list(range(1, m + 1))] + [[i] for i in range(1, n - 1)] + [[0, n - 1]]
+    vals = []
+    for i, r in enumerate(rows):
+        for j in r:
+            vals.append(Fr(rng.choice([4, 5, 7, -6])) if j == i else Fr(rng.choice([1, -1, 2]), rng.choice([1, 2])))
+    return n, rows, vals
+
+
+def gen_boundary(rng, thorough):
+    """stream `boundary-sizes`: sizes / counts just below, at and above 128, 256, 1000 (thorough: 32768, 65536) and the
+    boundaries found in the sources: `int` levels and fill level p up to INT_MAX, rows with > 255 fill-ins, unit filters
+    crossing the 1000-slot allocation step of SparseVector, BCSR block sizes 4..7 (Tiny inverse: closed formulas up to
+    6x6, generic elimination from 7x7), polynomial degree 127..1000; the interesting entries sit at the highest indices"""
+    cases = []
+    sizes = BOUNDARY_SIZES_QUICK + (BOUNDARY_SIZES_THOROUGH if thorough else [])
+    for n in sizes:
+        rows, vals = boundary_matrix(rng, n)
+        kinds = ["sor", "ssor", "jac"] if n < 2000 else [rng.choice(["sor", "ssor"]), "jac"]
+        for kind in kinds:
+            filt = sorted({n - 1 - rng.randrange(4), n - 2 - rng.randrange(3)})
+            cases.append("hist %s 0 %s %s unit %s 4 S N A %s D" % (kind, fq(rng.choice([Fr(3, 2), Fr(1, 2), Fr(7, 4)])),
+                                                                   fmt_csr(rows, vals), fmt_n(filt), fmt_q(boundary_vec(rng, n))))
+        if n < 2000:
+            cases.append("iluf %d %s %s" % (rng.choice([0, 1, 2]), fmt_csr(rows, vals), fmt_q(boundary_vec(rng, n))))
+    # unit filter entries across the 1000-slot allocation step of the SparseVector (entries at the high end)
+    for k in (999, 1000, 1001):
+        n = 1100
+        rows = [[i] for i in range(n)]
+        vals = [Fr(rng.choice([2, 3, -4, 5])) for _ in range(n)]
+        idx = list(range(n - k, n))
+        rng.shuffle(idx)
+        cases.append("hist jac 0 3/2 %s unit %s 4 S N A %s D" % (fmt_csr(rows, vals), fmt_n(idx), fmt_q(boundary_vec(rng, n, 120))))
+    # fill-in counts of ONE row around 128 / 256 (/ 1000) and fill levels up to INT_MAX
+    for m in [127, 128, 129, 255, 256, 257] + ([1000, 1001] if thorough else []):
+        n, rows, vals = fill_row_matrix(rng, m)
+        rp = [0]
+        for r in rows:
+            rp.append(rp[-1] + len(r))
+        cases.append("ilulev 2 %d %s %s" % (n, fmt_n(rp), fmt_n([c for r in rows for c in r])))
+        cases.append("iluf %d %s %s" % (rng.choice([1, 2, INT_MAX]), fmt_csr(rows, vals), fmt_q(boundary_vec(rng, n))))
+    for p in (255, 256, 32767, 32768, 65536, INT_MAX - 1, INT_MAX):
+        n = rng.choice([5, 6, 7])
+        style, rows = gen_pattern(rng, n, "sparse")
+        vals = gen_values(rng, rows, dominant=True)
+        cases.append("iluf %d %s %s" % (p, fmt_csr(rows, vals), fmt_q(rand_vec(rng, n))))
+        cases.append("hist ilu %d 1/1 %s 0 4 S N A %s D" % (p, fmt_csr(rows, vals), fmt_q(rand_vec(rng, n))))
+    # polynomial degree (Index m): nilpotent iteration matrix (omega = 1, triangular A) keeps the numbers small
+    for m in [127, 128, 255, 256] + ([1000, 1001] if thorough else []):
+        rows = [[0], [0, 1], [1, 2], [0, 2, 3]]
+        vals = [Fr(2), Fr(1), Fr(4), Fr(-1), Fr(5), Fr(1, 2), Fr(1), Fr(3)]
+        cases.append("hist poly %d 1/1 %s 0 4 S N A %s D" % (m, fmt_csr(rows, vals), fmt_q(rand_vec(rng, 4))))
+    # BCSR block sizes up to the largest instantiated (unit filter)
+    for bs in (4, 5, 6, 7):
+        for kind in ("sor", "ssor", "ilu", "jac", "mat"):
+            n = 2
+            rows = [[0, 1], [0, 1]]
+            vals = gen_values(rng, rows, dominant=True, block=bs)
+            v1 = gen_values(rng, rows, dominant=True, block=bs)
+            cases.append("histb %d %s %d %s %s 1 %d 7 S N A %s U %s N A %s D" % (
+                bs, kind, 0, fq(Fr(3, 2)), fmt_csr(rows, vals), rng.randrange(2), fmt_q(rand_vec(rng, n * bs)),
+                fmt_q(v1), fmt_q(rand_vec(rng, n * bs))))
+    # 1 x 1 and pure diagonal matrices for every scalar kind (a_ii * omega != 1)
+    for kind in SCALAR_KINDS:
+        for n in (1, 4):
+            rows = [[i] for i in range(n)]
+            vals = [Fr(rng.choice([3, -5, 7, 9])) for _ in range(n)]
+            cases.append("hist %s %d 3/2 %s 0 4 S N A %s D" % (kind, 1 if kind in ("poly", "ilu") else 0, fmt_csr(rows, vals),
+                                                              fmt_q([Fr(rng.randint(1, 5)) for _ in range(n)])))
     return cases
 
 
@@ -607,7 +711,7 @@ def parse_filter(c, bs):
 
 def level_pattern(n, rows, p):
     """textbook level-of-fill: lev(i,j) = 0 on the pattern, lev(i,j) = min(lev(i,k) + lev(k,j) + 1) over k < min(i,j)"""
-    INF = 10 ** 9
+    INF = 10 ** 30
     lev = [[INF] * n for _ in range(n)]
     for i, r in enumerate(rows):
         for j in r:
@@ -750,10 +854,62 @@ def parse_hist(c, blocked):
 STATELESS = ("sor", "ssor", "mat", "scale", "diag")
 
 
+def sparse_expected(kind, omega, n, rp, ci, vals, filt, x):
+    """the operator on a big sparse scalar matrix, row by row from the CSR arrays (boundary-size cases)"""
+    rowd = [[(ci[k], vals[k]) for k in range(rp[i], rp[i + 1])] for i in range(n)]
+    diag = [next(v for c_, v in rowd[i] if c_ == i) for i in range(n)] if kind in ("jac", "sor", "ssor") else None
+    if kind == "scale":
+        y = [omega * v for v in x]
+    elif kind == "diag":
+        y = [a * b for a, b in zip(vals, x)]
+    elif kind == "mat":
+        y = [sum((v * x[c_] for c_, v in rowd[i]), Fr(0)) for i in range(n)]
+    elif kind == "jac":
+        y = [omega * x[i] / diag[i] for i in range(n)]
+    elif kind == "sor":      # (D/omega + L) y = x
+        y = [Fr(0)] * n
+        for i in range(n):
+            y[i] = omega * (x[i] - sum((v * y[c_] for c_, v in rowd[i] if c_ < i), Fr(0))) / diag[i]
+    elif kind == "ssor":     # omega (2 - omega) (D + omega U)^-1 D (D + omega L)^-1 x
+        w = [Fr(0)] * n
+        for i in range(n):
+            w[i] = (x[i] - omega * sum((v * w[c_] for c_, v in rowd[i] if c_ < i), Fr(0))) / diag[i]
+        y = [Fr(0)] * n
+        for i in reversed(range(n)):
+            y[i] = (diag[i] * w[i] - omega * sum((v * y[c_] for c_, v in rowd[i] if c_ > i), Fr(0))) / diag[i]
+        y = [omega * (2 - omega) * v for v in y]
+    else:
+        return None
+    return apply_filter(y, filt, 1)
+
+
+def oracle_hist_big(kind, omega, n, rp, ci, vals, fidx, steps, out):
+    """boundary-size histories `S N A x D` on big sparse matrices"""
+    if [st for st, _ in steps] != ["S", "N", "A", "D"]:
+        return "boundary-size history of unexpected shape"
+    exp = sparse_expected(kind, omega, n, rp, ci, vals, fidx, steps[2][1])
+    if exp is None:
+        return None
+    if is_abnormal(out):
+        return "valid history ended with " + out
+    o = Tk(out)
+    if o.tok() != "R":
+        return "malformed output"
+    y = o.qlist()
+    if o.tok() != "U1":
+        return "apply modified its input vector or the matrix"
+    if y != exp:
+        bad = next(i for i in range(len(exp)) if i >= len(y) or y[i] != exp[i])
+        return "component %d is %s, the defining operator gives %s" % (bad, y[bad] if bad < len(y) else "?", exp[bad])
+    return None
+
+
 def oracle_hist(case, out, blocked):
     c = Tk(case)
     c.tok()
     bs, kind, p, omega, n, rp, ci, vals, fidx, steps = parse_hist(c, blocked)
+    if n * bs > 100 and kind in ("jac", "sor", "ssor", "mat", "scale", "diag") and bs == 1:
+        return oracle_hist_big(kind, omega, n, rp, ci, vals, fidx, steps, out)
     rows = [ci[rp[i]:rp[i + 1]] for i in range(n)]
     # walk the history: which applies are specified by the property, and with which matrix values
     sym = num = False
@@ -859,10 +1015,14 @@ def oracle_iluf(case, out):
     rp, ci, vals = c.nlist(), c.nlist(), c.qlist()
     b = c.qlist()
     rows = [ci[rp[i]:rp[i + 1]] for i in range(n)]
-    dense = dense_of(n, rp, ci, vals)
-    pat, Lr, Ur = ilu_reference(n, rows, p, dense)
-    if Lr is None:
-        return None if is_abnormal(out) else "zero pivot not reported"
+    big = n > 48      # boundary-size cases: sparse checks only (no dense n x n tables of Fractions)
+    if big:
+        pat = level_pattern(n, rows, p)
+    else:
+        dense = dense_of(n, rp, ci, vals)
+        pat, Lr, Ur = ilu_reference(n, rows, p, dense)
+        if Lr is None:
+            return None if is_abnormal(out) else "zero pivot not reported"
     if is_abnormal(out):
         return "factorisation of a valid matrix ended with " + out
     o = Tk(out)
@@ -894,6 +1054,22 @@ def oracle_iluf(case, out):
         return "symbolic pattern differs from the level-%d pattern: %s vs %s" % (p, ipat, pat)
     if any(v == 0 for v in dd):
         return "stored inverse pivot is zero"
+    if big:
+        arow = [{ci[k]: vals[k] for k in range(rp[i], rp[i + 1])} for i in range(n)]
+        lrow = [{cil[k]: dl[k] for k in range(rpl[i], rpl[i + 1])} for i in range(n)]
+        urow = [{ciu[k]: du[k] for k in range(rpu[i], rpu[i + 1])} for i in range(n)]
+        for i in range(n):
+            urow[i][i] = 1 / dd[i]
+        for i in range(n):
+            for j in pat[i]:
+                lu = sum((v * urow[k].get(j, 0) for k, v in lrow[i].items()), Fr(0)) + urow[i].get(j, 0)
+                if lu != arow[i].get(j, 0):
+                    return "(LU)[%d][%d] = %s but A = %s on the level-%d pattern" % (i, j, lu, arow[i].get(j, 0), p)
+            if y[i] + sum((v * y[k] for k, v in lrow[i].items()), Fr(0)) != b[i]:
+                return "solve_il: (I+L) y != b (row %d)" % i
+            if sum((v * z[k] for k, v in urow[i].items()), Fr(0)) != y[i]:
+                return "solve_du: (D+U) z != y (row %d)" % i
+        return None
     # dense factors from the implementation's arrays
     L = [[Fr(1) if r == cc else Fr(0) for cc in range(n)] for r in range(n)]
     U = [[Fr(0)] * n for _ in range(n)]
@@ -921,7 +1097,7 @@ def oracle_iluf(case, out):
 
 def level_table(n, rows, p):
     """textbook levels (min over the pivots in ascending order), None above p"""
-    INF = 10 ** 9
+    INF = 10 ** 30
     lev = [[INF] * n for _ in range(n)]
     for i, r in enumerate(rows):
         for j in r:
@@ -1083,6 +1259,27 @@ def describe(case):
     return keys
 
 
+def describe_boundary(case):
+    """size histogram of the boundary stream"""
+    t = case.split()
+    op = t[0]
+    keys = ["op:" + op]
+    try:
+        if op == "histb":
+            keys += ["bs:" + t[1], "kind:" + t[2]]
+        elif op == "hist":
+            keys += ["kind:" + t[1], "n:" + t[4], "p-or-m:" + t[2]]
+            if "unit" in t:
+                keys.append("unit-filter-entries:" + t[t.index("unit") + 1])
+        elif op == "iluf":
+            keys += ["n:" + t[2], "p:" + t[1]]
+        elif op == "ilulev":
+            keys += ["n:" + t[2], "fill-ins-last-row:%d" % (int(t[2]) - 2)]
+    except (IndexError, ValueError):
+        pass
+    return keys
+
+
 def signature(case, out, why):
     t = case.split()
     return "%s:%s:%s" % (t[0], t[2] if t[0] == "histb" else t[1], (why or "")[:40])
@@ -1113,12 +1310,17 @@ def main(argv):
     st = vlib.Stream("precond", cases, [binary], vlib.driver_cmd(PROP), oracle=oracle, nontrivial=nontrivial,
                      describe=describe, signature=signature, canon=canon,
                      model_filter=model_filter)
+    streams = [st]
+    if not args.replay:
+        bcases = gen_boundary(random.Random(args.seed * 7919 + 8), args.tier == "thorough")
+        streams.append(vlib.Stream("boundary-sizes", bcases, [binary], vlib.driver_cmd(PROP), oracle=oracle,
+                                   nontrivial=lambda c: True, describe=describe_boundary, signature=signature, canon=canon))
     stats_rule = ("random square CSR matrices n = 1..16 with stored non-zero diagonal (tridiagonal, banded, sparse, dense, "
                   "triangular, arrow patterns; explicit zero off-diagonals), omega in {1, 1/2, 2/3, 9/10, 5/4, 3/2, 7/4}, "
                   "ILU fill levels {-1,0,1,2,3,n}, polynomial orders 1..4, unit filters with 0..3 entries, histories "
                   "S N A (U N A)* D, linearity triples, stale applies, re-initialisation, apply-before-init; BCSR 2x2 / 3x3 "
                   "variants judged by the oracle only; non-trivial = n >= 3 with a strictly lower and a strictly upper entry")
-    return vlib.run_pipeline(PROP, args.tier, args.seed, lean, [st], t0, assumptions=[
+    return vlib.run_pipeline(PROP, args.tier, args.seed, lean, streams, t0, assumptions=[
         "Index modelled as unbounded Nat (no 64-bit overflow at the sizes FEAT can allocate)",
         "exact arithmetic: the scalar type is Q (GMP rationals); floating-point rounding is not covered by this check",
         "matrices store their diagonal entry and have sorted rows (documented precondition of the sweeps and of ILU)",
